@@ -35,10 +35,10 @@ def C(x):
 
 
 def run(repo, key, inline=(), config=None, facts=None, types=None, max_paths=256,
-        inline_ctor=(), symbolic_globals=False, unroll=False):
+        inline_ctor=(), symbolic_globals=False, unroll=False, literal_tables=False):
     f = repo.func(key) if isinstance(key, str) else key
     ip = Interp(repo, inline=inline, facts=facts, types=types, max_paths=max_paths,
-                inline_ctor=inline_ctor, symbolic_globals=symbolic_globals, unroll=unroll)
+                inline_ctor=inline_ctor, symbolic_globals=symbolic_globals, unroll=unroll, literal_tables=literal_tables)
     try:
         paths = ip.run(f, config=config)
     except PathLimit as e:
